@@ -593,7 +593,9 @@ Definition adopt_step (t : list tev) (st : bool * bool) (m : list (N * list N)) 
     let fatal_ok := (fatal =? 0) || store_fault_in_call t i || (norm_max m1 <? n1) || (norm_max m2 <? n2) in
     (* C02: an undamaged Persistence is adopted without warnings *)
     let warn_ok := if fst st then true else (if fatal =? 0 then nwarn =? 0 else true) in
-    ((false, snd st), fatal_ok && warn_ok)
+    (* records abandoned by an adoption stay in the Persistence and are reported again: the
+       no-warning clause is for a Persistence that was never tampered with *)
+    (st, fatal_ok && warn_ok)
   | TRet i OpRead (RetErr er) _ _ _ =>
     (* C16: after an adoption, connecting never fails on the session's own records ("gone missing",
        "record unavailable" are class-less errors), except when the client identifier record is unusable (F15) *)
